@@ -173,23 +173,32 @@ impl GraphEngine {
     /// Note: This MVP does not backfill existing data. The index will only track
     /// valid data inserted *after* index creation.
     pub fn create_index(&self, label: &str, field: &str) -> Result<()> {
+        vlock!("index_catalog", self.index_catalog);
         let mut catalog = self.index_catalog.lock().unwrap();
+        let _vh1 = vheld!("index_catalog");
         let name = format!("{}.{}", label, field);
         if catalog.get(&name).is_some() {
             return Ok(());
         }
 
+        vwrite!("pager", self.pager);
         let mut pager = self.pager.write().unwrap();
+        let _vh2 = vheld!("pager");
         catalog.get_or_create(&mut pager, &name)?;
         catalog.flush(&mut pager)?;
         Ok(())
     }
 
     pub fn begin_read(&self) -> Snapshot {
+        vread!("published_runs", self.published_runs);
         let runs = self.published_runs.read().unwrap().clone();
+        vread!("published_segments", self.published_segments);
         let segments = self.published_segments.read().unwrap().clone();
+        vread!("published_labels", self.published_labels);
         let labels = self.published_labels.read().unwrap().clone();
+        vread!("published_node_labels", self.published_node_labels);
         let node_labels = self.published_node_labels.read().unwrap().clone();
+        vpoint!("begin_read.roots");
         let (properties_root, stats_root) =
             load_properties_and_stats_roots(&self.properties_root, &self.stats_root);
         build_snapshot_from_published(
@@ -203,10 +212,14 @@ impl GraphEngine {
     }
 
     pub fn begin_write(&self) -> WriteTxn<'_> {
+        vlock!("write_lock", self.write_lock);
         let guard = self.write_lock.lock().unwrap();
+        vpoint!("begin_write.locked");
         let txid = self.next_txid.fetch_add(1, Ordering::Relaxed);
         WriteTxn {
             engine: self,
+            #[cfg(feature = "verif-hooks")]
+            _vheld: vheld!("write_lock"),
             _guard: guard,
             txid,
             created_nodes: Vec::new(),
@@ -227,7 +240,9 @@ impl GraphEngine {
     pub fn get_or_create_label(&self, name: &str) -> Result<LabelId> {
         // Optimistic read
         {
+            vlock!("label_interner", self.label_interner);
             let interner = self.label_interner.lock().unwrap();
+            let _vh4 = vheld!("label_interner");
             if let Some(id) = interner.get_id(name) {
                 return Ok(id);
             }
@@ -236,7 +251,9 @@ impl GraphEngine {
         // Write path: serialize with a lock or just rely on interner lock?
         // We need to write to WAL, so let's handle it carefully.
         // We'll just lock interner, check again, then write WAL, then update interner.
+        vlock!("label_interner", self.label_interner);
         let mut interner = self.label_interner.lock().unwrap();
+        let _vh5 = vheld!("label_interner");
         if let Some(id) = interner.get_id(name) {
             return Ok(id);
         }
@@ -249,7 +266,9 @@ impl GraphEngine {
         // We wrap this in a mini-transaction to ensure replayability.
         {
             let txid = self.next_txid.fetch_add(1, Ordering::Relaxed);
+            vlock!("wal", self.wal);
             let mut wal = self.wal.lock().unwrap();
+            let _vh6 = vheld!("wal");
             wal.append(&WalRecord::BeginTx { txid })?;
             wal.append(&WalRecord::CreateLabel {
                 name: name.to_string(),
@@ -261,7 +280,9 @@ impl GraphEngine {
 
         // Update Published Snapshot
         let snapshot = interner.snapshot();
+        vwrite!("published_labels", self.published_labels);
         let mut published = self.published_labels.write().unwrap();
+        let _vh7 = vheld!("published_labels");
         *published = Arc::new(snapshot);
 
         Ok(returned_id)
@@ -271,7 +292,9 @@ impl GraphEngine {
     /// Should be called after write transactions that create nodes.
     fn update_published_node_labels(&self) {
         let snapshot = read_i2l_snapshot(&self.idmap);
+        vwrite!("published_node_labels", self.published_node_labels);
         let mut published = self.published_node_labels.write().unwrap();
+        let _vh8 = vheld!("published_node_labels");
         *published = Arc::new(snapshot);
     }
 
@@ -292,14 +315,22 @@ impl GraphEngine {
 
     // T203: HNSW Public API
     pub fn insert_vector(&self, id: InternalNodeId, vector: Vec<f32>) -> Result<()> {
+        vwrite!("pager", self.pager);
         let mut pager = self.pager.write().unwrap();
+        let _vh9 = vheld!("pager");
+        vlock!("vector_index", self.vector_index);
         let mut idx = self.vector_index.lock().unwrap();
+        let _vh10 = vheld!("vector_index");
         idx.insert(&mut *pager, id, vector)
     }
 
     pub fn search_vector(&self, query: &[f32], k: usize) -> Result<Vec<(InternalNodeId, f32)>> {
+        vwrite!("pager", self.pager);
         let mut pager = self.pager.write().unwrap();
+        let _vh11 = vheld!("pager");
+        vlock!("vector_index", self.vector_index);
         let mut idx = self.vector_index.lock().unwrap();
+        let _vh12 = vheld!("vector_index");
         idx.search(&mut *pager, query, k)
     }
 
@@ -308,7 +339,9 @@ impl GraphEngine {
     }
 
     fn publish_run(&self, run: Arc<L0Run>) {
+        vwrite!("published_runs", self.published_runs);
         let mut current = self.published_runs.write().unwrap();
+        let _vh13 = vheld!("published_runs");
         let mut next = Vec::with_capacity(current.len() + 1);
         next.push(run);
         next.extend(current.iter().cloned());
@@ -321,8 +354,11 @@ impl GraphEngine {
     /// - Writes CSR segment pages to `.ndb` and fsyncs before publishing the manifest in WAL.
     /// - Writes `ManifestSwitch` + `Checkpoint` as a committed WAL tx to make the switch atomic.
     pub fn compact(&self) -> Result<()> {
+        vlock!("write_lock", self.write_lock);
         let _guard = self.write_lock.lock().unwrap();
+        let _vh14 = vheld!("write_lock");
 
+        vread!("published_runs", self.published_runs);
         let runs = self.published_runs.read().unwrap().clone();
 
         if runs.is_empty() {
@@ -335,7 +371,9 @@ impl GraphEngine {
         let mut seg = build_segment_from_runs(seg_id, &runs);
 
         {
+            vwrite!("pager", self.pager);
             let mut pager = self.pager.write().unwrap();
+            let _vh15 = vheld!("pager");
             seg.persist(&mut pager)?;
             pager.sync()?;
         }
@@ -344,6 +382,7 @@ impl GraphEngine {
         let epoch = self.manifest_epoch.load(Ordering::Relaxed) + 1;
 
         let new_segments = {
+            vread!("published_segments", self.published_segments);
             let current = self.published_segments.read().unwrap().clone();
             let mut next = Vec::with_capacity(current.len() + 1);
             next.push(Arc::new(seg));
@@ -373,7 +412,9 @@ impl GraphEngine {
 
         let mut current_root = self.properties_root.load(Ordering::SeqCst);
         if !sink_node_props.is_empty() || !sink_edge_props.is_empty() {
+            vwrite!("pager", self.pager);
             let mut pager = self.pager.write().unwrap();
+            let _vh16 = vheld!("pager");
             let mut tree = if current_root == 0 {
                 BTree::create(&mut pager)?
             } else {
@@ -414,7 +455,9 @@ impl GraphEngine {
         // Statistics Collection - read directly from IdMap for accuracy
         let mut stats = crate::stats::GraphStatistics::default();
         {
+            vlock!("idmap", self.idmap);
             let idmap = self.idmap.lock().unwrap();
+            let _vh17 = vheld!("idmap");
             let node_labels = idmap.get_i2l_snapshot();
 
             // Count nodes per label (node_labels[iid] = vec of label_ids for that node)
@@ -435,7 +478,9 @@ impl GraphEngine {
 
         let stats_root;
         {
+            vwrite!("pager", self.pager);
             let mut pager = self.pager.write().unwrap();
+            let _vh18 = vheld!("pager");
             let encoded_stats = stats.encode();
             stats_root = crate::blob_store::BlobStore::write(&mut pager, &encoded_stats)?;
         }
@@ -450,7 +495,9 @@ impl GraphEngine {
 
         let system_txid = self.next_txid.fetch_add(1, Ordering::Relaxed);
         {
+            vlock!("wal", self.wal);
             let mut wal = self.wal.lock().unwrap();
+            let _vh19 = vheld!("wal");
             wal.append(&WalRecord::BeginTx { txid: system_txid })?;
             wal.append(&WalRecord::ManifestSwitch {
                 epoch,
@@ -469,19 +516,27 @@ impl GraphEngine {
             wal.fsync()?;
         }
 
+        vpoint!("compact.after_wal");
         // 4. Update memory state
         self.checkpoint_txid.store(up_to_txid, Ordering::SeqCst);
+        vpoint!("compact.after_checkpoint_txid");
         self.properties_root.store(current_root, Ordering::SeqCst);
+        vpoint!("compact.after_properties_root");
         self.stats_root.store(stats_root, Ordering::SeqCst);
         {
+            vwrite!("published_runs", self.published_runs);
             let mut cur_runs = self.published_runs.write().unwrap();
+            let _vh20 = vheld!("published_runs");
             *cur_runs = Arc::new(Vec::new());
         }
         {
+            vwrite!("published_segments", self.published_segments);
             let mut cur_segs = self.published_segments.write().unwrap();
+            let _vh21 = vheld!("published_segments");
             *cur_segs = new_segments;
         }
 
+        vpoint!("compact.after_segments");
         self.manifest_epoch.store(epoch, Ordering::Relaxed);
         if !has_properties {
             self.checkpoint_txid.store(up_to_txid, Ordering::Relaxed);
@@ -499,18 +554,25 @@ impl GraphEngine {
     /// - the current manifest (`ManifestSwitch`) plus
     /// - a `Checkpoint` that allows recovery to skip older graph tx.
     pub fn checkpoint_on_close(&self) -> Result<()> {
+        vlock!("write_lock", self.write_lock);
         let _guard = self.write_lock.lock().unwrap();
+        let _vh22 = vheld!("write_lock");
 
+        vread!("published_runs", self.published_runs);
         let runs = self.published_runs.read().unwrap().clone();
         if !runs.is_empty() {
             // Cannot compact WAL safely while L0 runs (esp. properties) are WAL-only.
             // Best-effort durability: flush NDB + WAL.
             {
+                vwrite!("pager", self.pager);
                 let mut pager = self.pager.write().unwrap();
+                let _vh23 = vheld!("pager");
                 pager.sync()?;
             }
             {
+                vlock!("wal", self.wal);
                 let mut wal = self.wal.lock().unwrap();
+                let _vh24 = vheld!("wal");
                 wal.fsync()?;
             }
             return Ok(());
@@ -518,15 +580,20 @@ impl GraphEngine {
 
         // Ensure idmap/pages are durable before allowing recovery to skip old WAL.
         {
+            vwrite!("pager", self.pager);
             let mut pager = self.pager.write().unwrap();
+            let _vh25 = vheld!("pager");
             pager.sync()?;
         }
 
         let labels = {
+            vlock!("label_interner", self.label_interner);
             let interner = self.label_interner.lock().unwrap();
+            let _vh26 = vheld!("label_interner");
             interner.snapshot()
         };
 
+        vread!("published_segments", self.published_segments);
         let segments = self.published_segments.read().unwrap().clone();
         let pointers: Vec<SegmentPointer> = segments
             .iter()
@@ -566,7 +633,9 @@ impl GraphEngine {
         });
 
         {
+            vlock!("wal", self.wal);
             let mut wal = self.wal.lock().unwrap();
+            let _vh27 = vheld!("wal");
             wal.rewrite_as_snapshot(system_txid, ops)?;
             wal.fsync()?;
         }
@@ -658,6 +727,8 @@ fn build_segment_from_runs(seg_id: SegmentId, runs: &Arc<Vec<Arc<L0Run>>>) -> Cs
 
 pub struct WriteTxn<'a> {
     engine: &'a GraphEngine,
+    #[cfg(feature = "verif-hooks")]
+    _vheld: crate::verif::Held,
     _guard: std::sync::MutexGuard<'a, ()>,
     txid: u64,
     created_nodes: Vec<(ExternalId, LabelId, InternalNodeId)>,
@@ -682,7 +753,9 @@ impl<'a> WriteTxn<'a> {
         }
 
         let base_next = {
+            vlock!("idmap", self.engine.idmap);
             let idmap = self.engine.idmap.lock().unwrap();
+            let _vh28 = vheld!("idmap");
             idmap.next_internal_id()
         };
         let internal_id = base_next + self.created_nodes.len() as u32;
@@ -785,7 +858,9 @@ impl<'a> WriteTxn<'a> {
             }
         }
 
+        vlock!("label_interner", self.engine.label_interner);
         let interner = self.engine.label_interner.lock().unwrap();
+        let _vh29 = vheld!("label_interner");
         self.created_nodes
             .iter()
             .map(|(_, _, node_id)| {
@@ -817,7 +892,9 @@ impl<'a> WriteTxn<'a> {
 
         // 1) Append WAL and fsync (durability Full by default).
         {
+            vlock!("wal", self.engine.wal);
             let mut wal = self.engine.wal.lock().unwrap();
+            let _vh30 = vheld!("wal");
             wal.append(&WalRecord::BeginTx { txid: self.txid })?;
 
             for (external_id, label_id, internal_id) in &self.created_nodes {
@@ -927,6 +1004,7 @@ impl<'a> WriteTxn<'a> {
 
                 if let Some(lid) = label_id {
                     // Resolve Label Name
+                    vlock!("label_interner", self.engine.label_interner);
                     let label_name = self
                         .engine
                         .label_interner
@@ -938,6 +1016,7 @@ impl<'a> WriteTxn<'a> {
                     if let Some(label_name) = label_name {
                         let index_name = format!("{}.{}", label_name, key);
                         // Check if index exists without holding the lock for long
+                        vlock!("index_catalog", self.engine.index_catalog);
                         let has_index = self
                             .engine
                             .index_catalog
@@ -974,6 +1053,7 @@ impl<'a> WriteTxn<'a> {
 
                 let label_id = snapshot.node_label(*node);
                 if let Some(lid) = label_id {
+                    vlock!("label_interner", self.engine.label_interner);
                     let label_name = self
                         .engine
                         .label_interner
@@ -983,6 +1063,7 @@ impl<'a> WriteTxn<'a> {
                         .map(|s| s.to_string());
                     if let Some(label_name) = label_name {
                         let index_name = format!("{}.{}", label_name, key);
+                        vlock!("index_catalog", self.engine.index_catalog);
                         let has_index = self
                             .engine
                             .index_catalog
@@ -1001,8 +1082,12 @@ impl<'a> WriteTxn<'a> {
 
             // Apply Index Updates
             if !index_ops.is_empty() {
+                vlock!("index_catalog", self.engine.index_catalog);
                 let mut catalog = self.engine.index_catalog.lock().unwrap();
+                let _vh31 = vheld!("index_catalog");
+                vwrite!("pager", self.engine.pager);
                 let mut pager = self.engine.pager.write().unwrap();
+                let _vh32 = vheld!("pager");
 
                 for (op, node_id) in index_ops {
                     match op {
@@ -1064,14 +1149,19 @@ impl<'a> WriteTxn<'a> {
             wal.fsync()?;
         }
 
+        vpoint!("commit.after_wal");
         let has_new_nodes = !self.created_nodes.is_empty();
         let has_label_additions = !self.pending_label_additions.is_empty();
         let has_label_removals = !self.pending_label_removals.is_empty();
 
         // 3. Apply created nodes to IdMap / Node Index
         {
+            vlock!("idmap", self.engine.idmap);
             let mut idmap = self.engine.idmap.lock().unwrap();
+            let _vh33 = vheld!("idmap");
+            vwrite!("pager", self.engine.pager);
             let mut pager = self.engine.pager.write().unwrap();
+            let _vh34 = vheld!("pager");
             for (external_id, label_id, internal_id) in self.created_nodes {
                 idmap.apply_create_node(&mut pager, external_id, label_id, internal_id)?;
             }
@@ -1083,15 +1173,18 @@ impl<'a> WriteTxn<'a> {
             }
         }
 
+        vpoint!("commit.after_idmap");
         let has_label_mutations = has_new_nodes || has_label_additions || has_label_removals;
         if has_label_mutations {
             self.engine.update_published_node_labels();
         }
 
+        vpoint!("commit.before_publish_run");
         if !run.is_empty() {
             self.engine.publish_run(Arc::new(run));
         }
 
+        vpoint!("commit.after_publish_run");
         self.engine.next_txid.fetch_add(1, Ordering::Relaxed);
 
         Ok(())
